@@ -41,6 +41,21 @@ CORPORA = {
                                   Keys={"owned", "lent"}),
                       parts=16, max_runs=500000),
     ),
+    # two threads, each performing its call twice: re-acquisition after drop / failed try / scoped return
+    "conc2x2": dict(
+        module="MC.tla",
+        quick=dict(consts=dict(Kinds={"single", "boxed", "retry"}, ApisA={"lock", "try_lock", "scoped_lock", "read"},
+                               CallsB={("single", (1,), "lock"), ("boxed", (2, 1), "try_lock"), ("retry", (1, 4), "read"),
+                                       ("owned", (4,), "scoped_lock")},
+                               UnivA={1, 2, 4}, MinLenA=1, MaxLenA=2, Policies={"WP"}, NT=2, Keys={"owned"}, Rounds=2),
+                   parts=14, max_runs=120000),
+        thorough=dict(consts=dict(Kinds=ALL_KINDS, ApisA=ALL_APIS,
+                                  CallsB={("single", (1,), "lock"), ("boxed", (2, 1), "try_lock"), ("retry", (1, 4), "read"),
+                                          ("owned", (4,), "scoped_lock"), ("ref", (4, 2), "lock"), ("single", (2,), "read")},
+                                  UnivA={1, 2, 4}, MinLenA=1, MaxLenA=2, Policies={"RP", "WP"}, NT=2, Keys={"owned", "lent"},
+                                  Rounds=2),
+                      parts=16, max_runs=500000),
+    ),
     # three threads: rings and mixed kinds over three top-level locks
     "conc3": dict(
         module="MC.tla",
@@ -220,11 +235,11 @@ CORPORA.update({
 })
 
 PROPS = {
-    "C01": dict(corpora=["conc2", "size3", "conc3", "nest"], design="DESIGN.md §5 C01"),
+    "C01": dict(corpora=["conc2", "size3", "conc3", "nest", "conc2x2"], design="DESIGN.md §5 C01"),
     "C02": dict(corpora=["conc2", "size3", "nest"], design="DESIGN.md §5 C02"),
-    "C03": dict(corpora=["conc2", "size3", "seqapi"], design="DESIGN.md §5 C03"),
+    "C03": dict(corpora=["conc2", "size3", "seqapi", "conc2x2"], design="DESIGN.md §5 C03"),
     "C04": dict(corpora=["conc2", "size3", "nest"], design="DESIGN.md §5 C04"),
-    "C05": dict(corpora=["conc2", "size3", "seqapi", "ops"], design="DESIGN.md §5 C05"),
+    "C05": dict(corpora=["conc2", "size3", "seqapi", "ops", "conc2x2"], design="DESIGN.md §5 C05"),
     "C08": dict(corpora=["conc2", "size3"], design="DESIGN.md §5 C08"),
     "C09": dict(corpora=["conc2", "size3", "conc3", "nest"], design="DESIGN.md §5 C09"),
     "C13": dict(corpora=["conc2", "seqapi"], design="DESIGN.md §5 C13"),
